@@ -48,6 +48,8 @@ var twoJoinShapes = []string{
 	"A | join %K(B | join %L(C) on k) on k",
 	"A | where a > 0 | join %K(B | where b > 0 | join %L(C) on $left.b == $right.c | take 1) on k | count",
 	"A | join %K(B) on k | where b > 0 | join %L(C | take 1) on $left.b == $right.c | project a, b, c",
+	"A | where a > 0 | join %K(B | join %L(C) on k) on k",
+	"A | extend d = a + 1 | join %K(B | join %L(C | where c > 0) on $left.b == $right.c | where b > 0) on k | count",
 }
 
 func replaceAll(s, old, new string) string {
